@@ -65,6 +65,10 @@ def behaviour(r: dict) -> tuple:
     return (r["status"], r["exc"], r["out"])
 
 
+# sources of nondeterminism that put a program outside the property's domain
+NONDET = __import__("re").compile(r"\b(random|time|datetime|uuid|secrets|urandom|getpid|threading|multiprocessing|perf_counter|id\()")
+
+
 def observable(b: tuple) -> bool:
     """In the property's domain: ran to completion and printed no object address."""
     return b[0] == "ok" and not _ADDR.search(b[2])
